@@ -81,19 +81,21 @@ def check_cluster(lst, acc):
     return found
 
 
-def check_write(ins, dels, acc):
+def check_write(ins, dels, acc, off=0):
     k = 7500
-    mk = lambda lst, base: [[t, c, s * k, e * k, QUERY_IDS[base + i], 0, 1, 7] for i, (t, c, s, e) in enumerate(lst)]  # noqa: E731
+    # off: coordinates with nine significant digits (12 Mb, one decimal) - what real chromosomes have
+    mk = lambda lst, base: [[t, c, s * k + off, e * k + off, QUERY_IDS[base + i], 0, 1, 7] for i, (t, c, s, e) in enumerate(lst)]  # noqa: E731
     d_ins, d_del = mk(ins, 0), mk(dels, 3)
     path = os.path.join(core.scratch_dir(), 'indels-%d.txt' % os.getpid())
     found = []
-    case = dict(kind='write', insertions=[list(x) for x in ins], deletions=[list(x) for x in dels])
+    case = dict(kind='write', insertions=[list(x) for x in ins], deletions=[list(x) for x in dels], offset=off)
     sig = {'mixed_types': False}
     snap = copy.deepcopy(d_ins + d_del)
     try:
         write_indel_file({'insertion': d_ins, 'deletion': d_del}, 'x.xmap', file_name=path)
         rows = [l.rstrip('\n').split('\t') for l in open(path) if not l.startswith('#')]
-        out = [[r[0], int(r[1]), int(float(r[2])), int(float(r[3])), r[4], r[5], r[6], float(r[7]), int(r[8])] for r in rows]
+        num = (lambda x: int(float(x))) if not off else float
+        out = [[r[0], int(r[1]), num(r[2]), num(r[3]), r[4], r[5], r[6], float(r[7]), int(r[8])] for r in rows]
     except Exception as e:
         out = None
         found.append(('write-exception', '%s: %s' % (type(e).__name__, e), 'write_indel_file', sig))
@@ -104,7 +106,7 @@ def check_write(ins, dels, acc):
         acc.evals += 1
         acc.transitions += 3
         if out is not None:
-            acc.state(('w',) + tuple((o[0], o[1], o[2] // k, o[3] // k, o[8]) for o in out))
+            acc.state(('w',) + tuple((o[0], o[1], int(o[2] - off) // k, int(o[3] - off) // k, o[8]) for o in out))
         if len(ins) + len(dels) >= 2:
             acc.nontriv(('w', tuple(ins), tuple(dels)))
         for f in found:
@@ -417,8 +419,9 @@ class Clusters(core.Layer):
                 for nd in range(0, 3):
                     for ins in itertools.combinations(single, ni):
                         for dels in itertools.combinations(singled, nd):
-                            acc.seq += 1
-                            check_write(list(ins), list(dels), acc)
+                            for off in (0, 12320432.1):
+                                acc.seq += 1
+                                check_write(list(ins), list(dels), acc, off)
             return
         first = CALLS[b]
         for n in range(1, self.nmax + 1):
@@ -434,7 +437,7 @@ class Clusters(core.Layer):
         if case['kind'] == 'cluster':
             return check_cluster([tuple(x) for x in case['calls']], None)
         if case['kind'] == 'write':
-            return check_write([tuple(x) for x in case['insertions']], [tuple(x) for x in case['deletions']], None)
+            return check_write([tuple(x) for x in case['insertions']], [tuple(x) for x in case['deletions']], None, case.get('offset', 0))
         if case['kind'] == 'finder-sequence':
             return check_finder_multi(case['finder'], [tuple(x) for x in case['alignments']], None, case.get('query_gap', 150000))
         return check_finder(case['finder'], case['breakpoint'], case['ref_delta'][0], case['ref_delta'][1], case['reverse'], None, case.get('query_gap', 150000))
